@@ -167,6 +167,24 @@ def solver_slack(scn, ref, times):
         if dmin:
             worst_p = max((b - a) / max(e, 0.1) for a, b, e in rngs)
             extra += min(3e-6 * worst_p / max(0.2 * dmin, 1e-5), 0.05)
+    # the instant at which a tank reaches a level limit or a level-control threshold is resolved to the second from a crossing computed in
+    # floating point: two runs that agree to the last digits may place it one second apart, and every head that follows the tank then differs
+    # by up to that second of tank flow (the same allowance the tank-limit clause of C06 grants: ~2 s of flow)
+    import math
+    for n in scn['nodes']:
+        if n['type'] != 'T':
+            continue
+        try:
+            qt = float(ref.node['demand'].loc[times, n['id']].abs().max()) if len(times) else 0.0
+        except Exception:  # noqa
+            qt = 0.0
+        area = math.pi * n['diam'] ** 2 / 4.0
+        if n.get('vol_curve') and n['vol_curve'] in scn.get('curves', {}):
+            pts = scn['curves'][n['vol_curve']]['points']
+            slopes = [(b[1] - a[1]) / (b[0] - a[0]) for a, b in zip(pts, pts[1:]) if b[0] > a[0]]
+            if slopes:
+                area = max(min(slopes), 1e-3)
+        extra += min(2.0 * qt / area, 0.01)
     out = dict(SOLVER_SLACK)
     out['head'] = (SOLVER_SLACK['head'][0] + extra, SOLVER_SLACK['head'][1])
     out['pressure'] = (SOLVER_SLACK['pressure'][0] + extra, SOLVER_SLACK['pressure'][1])
